@@ -83,7 +83,7 @@ CHECKS = {
                 text=("Bounded model checking of read_exact, write_all, write_fmt and the ReadBuf cursor arithmetic against a reader/writer "
                       "whose every response (k bytes, 0, EINTR, error) is chosen by the solver."),
                 note=K_NOTE + " PARTIAL: read_to_end/read_to_string are NOT covered (CBMC ran out of 40-60 GB in every formulation tried). "
-                     "<= 8 bytes, <= 5 calls (9 in thorough)."),
+                     "<= 8 bytes, <= 9 calls already in the quick tier; thorough = quick."),
     "C16": dict(engine="K", technique=K_TECH, design_ref="§4 C16",
                 text=("Bounded model checking of the library side: ancillary-data iteration over exactly-filled, larger and too-small control "
                       "buffers (no load outside, exactly the descriptors written), sockaddr_un/sockaddr_in conversions, and the ppoll wait "
@@ -138,7 +138,7 @@ CHECKS = {
                 text=("Bounded model checking: every pair of operand byte strings up to the stated length (all 255 non-NUL byte "
                       "values) is decided by the SAT solver against byte-string reference definitions; Kani's pointer checks decide "
                       "'reads outside its arguments'. Bounded, not a proof: longer operands are outside the claim."),
-                note=K_NOTE + " Quick: operands <= 3..5 bytes per operation; thorough: <= 5..8 bytes."),
+                note=K_NOTE + " Operands <= 5..8 bytes per operation (find <= 6, join <= 5) already in the quick tier (the deeper bounds cost under 2 minutes); thorough = quick."),
 }
 
 NOT_APPLICABLE = {
